@@ -87,8 +87,10 @@ CHECKS.update({
              'Enc, on TLC-enumerated words and values; plus a differential comparison with encoding/json',
              text='TLC checks on the specification that the transducers accept exactly the valid texts and keep the value, and that Parse(Enc(v)) = v; '
                   'the real codec must then produce exactly the specification bytes for every word / value, report keys in document order, and '
-                  'agree with encoding/json on the same inputs. Struct types, tags and token streams are outside the specification and only '
-                  'covered differentially (stated in evidence).',
+                  'agree with encoding/json on the same inputs. Go VALUES (nil, bool, int, float, strings of any bytes, slices, []byte, maps with '
+                  'string/int keys, pointers, struct types with tag names, omitempty, string, "-", unexported and embedded fields built with '
+                  'reflect.StructOf) are covered by GoEnc.tla: Marshal/MarshalEscaped must write exactly GoMarshal(v, esc). Decoding INTO typed '
+                  'values and the token stream API are only covered differentially (stated in evidence).',
              note=TB + '; the differential part trusts the standard library of the installed Go release'),
 })
 
